@@ -70,6 +70,7 @@ def closure_axioms():
         ('U5-joining-a-relative-name-stays-strictly-under', z3.ForAll([p, w, n], z3.Implies(z3.And(strictly_under(p, w), rel(n), z3.Length(w) > 0), strictly_under(j, w)),
                                                                       patterns=[strictly_under(j, w)])),
         ('U6-a-joined-path-contains-the-joined-name', z3.ForAll([p, n], z3.Contains(j, n), patterns=[j])),
+        ('U7-under-is-transitive', z3.ForAll([p, w, n], z3.Implies(z3.And(under(p, n), under(n, w)), under(p, w)), patterns=[z3.MultiPattern(under(p, n), under(n, w))])),
     ]
 
 
@@ -208,10 +209,11 @@ def build():
                      modifies=lambda c: {}, fresh_fields=['list']))
 
     # ---- copytree_with_extension: writes only under its destination ---------------------------------------------------------------------------
-    WALK = List(Tuple(Str, List(Str), List(Str)))
+    WALK = List(Tuple(Str, List(Str), TupleOf(Str)))
     _walk = fn('os_walk', SS, S.SeqP())
+    is_names = lambda x: fn('is_tuple_of_entry_names', S.PyObj(), z3.BoolSort())(x)
 
-    @reg.extern('os.walk', 'os.walk(top): a finite sequence of (root, dirs, files); dirs/files are entry names; pruning dirs in place is honoured by the OS walk (not modelled)')
+    @reg.extern('os.walk', 'os.walk(top): a finite sequence of (root, dirs, files); every root is top or a path below it; dirs/files are entry names; pruning dirs in place is honoured by the OS walk (not modelled)')
     def _os_walk(ex, st, node, args, kwargs):
         seq = _walk(S.sval(args[0].t))
         j, f = z3.Ints('wj wf')
@@ -221,15 +223,21 @@ def build():
         st.assume(nn >= lo)
         st.next_ref = nn
         dirs, files = S.items(triple)[1], S.items(triple)[2]
+        # `dirs` is a heap list (the walk honours in-place pruning); `files` is modelled as an immutable sequence of names (code that mutated it would not type-check here)
         st.assume(z3.ForAll([j], z3.Implies(z3.And(j >= 0, j < z3.Length(seq)), z3.And(
-            S.is_tup(triple), z3.Length(S.items(triple)) == 3, S.is_str(S.items(triple)[0]),
-            S.has_type(dirs, List(Str), nn), S.has_type(files, List(Str), nn), S.addr(dirs) >= lo, S.addr(files) >= lo, dirs != files)), patterns=[S.at(seq, j)]))
+            S.is_tup(triple), z3.Length(S.items(triple)) == 3, S.is_str(S.items(triple)[0]), under(S.sval(S.items(triple)[0]), S.sval(args[0].t)),
+            under(S.sval(S.at(S.items(triple), 0)), S.sval(args[0].t)),
+            S.has_type(dirs, List(Str), nn), S.has_type(files, TupleOf(Str), nn), S.addr(dirs) >= lo, is_names(files))), patterns=[S.at(seq, j)]))
         lst = st.field('list')
-        for coll in (dirs, files):
-            st.assume(z3.ForAll([j, f], z3.Implies(z3.And(j >= 0, j < z3.Length(seq), f >= 0, f < z3.Length(z3.Select(lst, S.addr(coll)))),
-                                                   z3.And(S.is_str(S.at(z3.Select(lst, S.addr(coll)), f)), simple_name(S.sval(S.at(z3.Select(lst, S.addr(coll)), f))))),
-                                patterns=[S.at(z3.Select(lst, S.addr(coll)), f)]))
-        return V(S.mk_tup(seq), TupleOf(Tuple(Str, List(Str), List(Str))))     # the generator is consumed once: an immutable sequence of triples
+        st.assume(z3.ForAll([j, f], z3.Implies(z3.And(j >= 0, j < z3.Length(seq), f >= 0, f < z3.Length(z3.Select(lst, S.addr(dirs)))),
+                                               z3.And(S.is_str(S.at(z3.Select(lst, S.addr(dirs)), f)), simple_name(S.sval(S.at(z3.Select(lst, S.addr(dirs)), f))))),
+                            patterns=[S.at(z3.Select(lst, S.addr(dirs)), f)]))
+        # (the pattern must not contain the native seq.nth of the triple: z3 rewrites it; hence the predicate on the tuple object itself)
+        xo = z3.Const('wx', S.PyObj())
+        st.assume(z3.ForAll([xo, f], z3.Implies(z3.And(is_names(xo), f >= 0, f < z3.Length(S.items(xo))),
+                                                z3.And(S.is_str(S.at(S.items(xo), f)), simple_name(S.sval(S.at(S.items(xo), f))))),
+                            patterns=[S.at(S.items(xo), f)]))
+        return V(S.mk_tup(seq), TupleOf(Tuple(Str, List(Str), TupleOf(Str))))     # the generator is consumed once: an immutable sequence of triples
 
     @reg.extern('os.path.relpath', 'os.path.relpath(root, src) for a root produced by os.walk(src): a relative path (ASSUMPTION: no ".." component)')
     def _relpath(ex, st, node, args, kwargs):
@@ -277,8 +285,10 @@ def build():
                      fresh_fields=[]))
 
     # ---- WorkspaceBuilder.run ---------------------------------------------------------------------------------------------------------------
+    reg.const_values['os.sep'] = lambda ex, st: V(S.mk_str(z3.StringVal('/')), Str)        # POSIX
     reg.const_values['config.EXTERNS_MOCK_CODE_DIR'] = lambda ex, st: V(S.mk_str(z3.String('EXTERNS_MOCK_CODE_DIR')), Str)
     reg.add(Contract(PREP, 'WorkspaceBuilder.change_c_like_files', dict(self=WB, src_dir_path=Str), returns=NoneT, opaque=True,
+                     requires=[('the-tree-handed-to-the-C-preprocessing-lies-inside-the-workspace', lambda c: ok_path(c.st, S.sval(c.p.src_dir_path)))],
                      ensures=[('options-untouched', lambda c: z3.And(c.new.attr(c.p.self, 'options') == c.old.attr(c.p.self, 'options'),
                                                                      c.new.attr(c.old.attr(c.p.self, 'options'), 'workspace') == c.old.attr(c.old.attr(c.p.self, 'options'), 'workspace')))],
                      modifies=lambda c: {'attr:clang_installed': [c.p.self]}, fresh_fields=[],
@@ -316,6 +326,16 @@ def build():
                      ensures=[('workspace-contains-the-default-name-and-is-the-given-path-or-given/default', swd)],
                      modifies=lambda c: {'attr:workspace': [c.old.attr(c.p.self, 'options')], 'attr:default_workspace_dir': [c.old.attr(c.p.self, 'options')],
                                          'attr:set_workspace_dir_flag': [c.p.self]}, fresh_fields=[]))
+    # ---- C/C++ header preprocessing: it rewrites files NEXT TO the file it is given, so it may only ever be given files of the workspace ------------------------------
+    inside = lambda c, x: ok_path(c.st, S.sval(x))
+    reg.add(Contract(PREP, 'WorkspaceBuilder.preprocess_c_like_file', dict(self=WB, file_path=Str), returns=NoneT, opaque=True,
+                     requires=[('the-file-it-writes-next-to-lies-inside-the-workspace', lambda c: inside(c, c.p.file_path))],
+                     modifies=lambda c: {}, fresh_fields=[],
+                     note='writes <file>_processed<ext> and lets clang write <file>.i/.ii beside <file> (body not verified: regex, subprocess); the obligation is on every caller'))
+    reg.add(Contract(PREP, 'WorkspaceBuilder.rescan_c_like_files', dict(self=WB, target_path=Str), returns=NoneT, ghost_init=set_roots_from_options,
+                     requires=[ws_nonempty, ('the-scanned-path-lies-inside-the-workspace', lambda c: inside(c, c.p.target_path))],
+                     loops={1: LoopSpec(modifies=lambda c: {'list': (lambda a: z3.BoolVal(False))}), 2: LoopSpec(modifies=lambda c: {'list': (lambda a: z3.BoolVal(False))})},   # no list that exists at loop entry is written
+                     modifies=lambda c: {}, fresh_fields=['list']))
     return reg
 
 
@@ -332,7 +352,8 @@ def closure_lemmas(reg, tier):
             ('U3-joining-an-entry-name-is-strictly-under', [under_def(p, w), simple_name(n), z3.Length(w) > 0], strict_def(j, w)),
             ('U4-strictly-under-is-under', [strict_def(p, w)], under_def(p, w)),
             ('U5-joining-a-relative-name-stays-strictly-under', [strict_def(p, w), rel(n), z3.Length(w) > 0], strict_def(j, w)),
-            ('U6-a-joined-path-contains-the-joined-name', [], z3.Contains(j, n))):
+            ('U6-a-joined-path-contains-the-joined-name', [], z3.Contains(j, n)),
+            ('U7-under-is-transitive', [under_def(p, n), under_def(n, w)], under_def(p, w))):
         out.append(solve.discharge_fresh(VC(f'{PROPERTY}:lemma:{name}', hyps, goal, kind='lemma'), 60000))
     return out
 
@@ -410,6 +431,18 @@ def inventory_obligations(reg, tier):
     unknown = [s_ for s_ in sites if (s_[0], s_[1]) not in KNOWN_SITES]
     res('every-file-system-mutating-call-site-of-src/lian-is-in-a-known-function', not unknown, str(unknown[:5]))
     inventory_obligations.sites = sites
+    prep = source.load(PREP)
+    ccf = prep.function('WorkspaceBuilder.change_c_like_files')
+    calls = [ast.unparse(n) for n in ast.walk(ccf) if isinstance(n, ast.Call) and 'rescan_c_like_files' in ast.unparse(n.func)]
+    rebinds = [ast.unparse(n)[:50] for n in ast.walk(ccf) if isinstance(n, ast.Name) and n.id == 'src_dir_path' and isinstance(n.ctx, ast.Store)]
+    others = []
+    for q in sorted(prep.functions):
+        for n in ast.walk(prep.function(q)):
+            if isinstance(n, ast.Call) and isinstance(n.func, ast.Attribute) and n.func.attr in ('rescan_c_like_files', 'preprocess_c_like_file') and \
+                    q not in ('WorkspaceBuilder.change_c_like_files', 'WorkspaceBuilder.rescan_c_like_files'):
+                others.append(f'{q}: {ast.unparse(n)[:60]}')
+    res('the-C-preprocessing-is-only-ever-started-on-the-tree-change_c_like_files-was-given', calls == ['self.rescan_c_like_files(src_dir_path)'] and not rebinds and not others,
+        str((calls, rebinds, others))[:300])
     # loader paths: in Loader.__init__ every string handed to a sub-loader as its path is os.path.join(...) whose first argument is rooted at options.workspace
     ld = source.load('src/lian/util/loader.py')
     init = ld.function('Loader.__init__')
